@@ -3,7 +3,7 @@
 cd /verif; : > .work/seed_regression.log
 for d in seeded/*/; do
   id=$(basename $d); prop=$(python3 -c "import json;print(json.load(open('$d/meta.json'))['property'])")
-  patch=$d/patch.diff
+  patch=/verif/$d/patch.diff
   git -C /repo apply --check $patch 2>/dev/null || { echo "$id $prop PATCH-DOES-NOT-APPLY" >> .work/seed_regression.log; continue; }
   out=$(tools/try_seed.sh $prop $patch 2>&1)
   if echo "$out" | grep -q "^VIOLATION property=$prop"; then
